@@ -26,4 +26,13 @@ func init() {
 	z("C02_ProtoAckServerToClient", int64(protocol.VerifC02AckServerToClient))
 	z("C02_ProtoDataClientToServerLE", int64(protocol.VerifC02DataClientToServerLowEntropy))
 	z("C02_ProtoDataServerToClientLE", int64(protocol.VerifC02DataServerToClientLowEntropy))
+
+	// behavioural probe: the receive buffer of PacketUnderlay.readOneSegment for underlays configured with different LOCAL MTUs
+	// (client and server): the largest datagram that is received untruncated. A peer may use any legal MTU.
+	z("C02_readBufLen_client_mtu1280", int64(protocol.VerifC02ReadBufferLen(1280, true)))
+	z("C02_readBufLen_client_mtu1400", int64(protocol.VerifC02ReadBufferLen(1400, true)))
+	z("C02_readBufLen_client_mtu1500", int64(protocol.VerifC02ReadBufferLen(1500, true)))
+	z("C02_readBufLen_server_mtu1280", int64(protocol.VerifC02ReadBufferLen(1280, false)))
+	z("C02_readBufLen_server_mtu1400", int64(protocol.VerifC02ReadBufferLen(1400, false)))
+	z("C02_readBufLen_server_mtu1500", int64(protocol.VerifC02ReadBufferLen(1500, false)))
 }
